@@ -23,6 +23,10 @@ def amountPerPower : Nat := 1000000000000000000
 def wadd (a b : Nat) : Nat := (a + b) % two256
 def wsub (a b : Nat) : Nat := (a + two256 - b % two256) % two256
 def wmul (a b : Nat) : Nat := (a * b) % two256
+/-- Go's `int64` result of an integer computation: two's-complement wrap-around into `[-2^63, 2^63)`
+    (the same definition as `Rigo.Gen.wrapI64` of the generated code; the identity on int64 values) -/
+def wrapInt64 (x : Int) : Int :=
+  if x % (two64 : Int) < (two63 : Int) then x % (two64 : Int) else x % (two64 : Int) - (two64 : Int)
 /-- `uint256.Int.Sign() < 0` -/
 def isNeg256 (a : Nat) : Bool := a ≥ two255
 
